@@ -63,8 +63,12 @@ type c06Scn struct {
 }
 
 func c06New(w *fw.Worker, i int, r *fw.Rand, nsrc int, slow int) (*c06Scn, error) {
+	return c06NewOpts(w, i, r, conc.Opts{NSrc: nsrc, SlowCB: slow})
+}
+
+func c06NewOpts(w *fw.Worker, i int, r *fw.Rand, o conc.Opts) (*c06Scn, error) {
 	s := &c06Scn{w: w, i: i, tr: conc.NewCBTrace(), gates: conc.NewGates(), tokenCfg: map[int]*conc.Cfg{}, tokenSerial: map[int]uint64{}, unregistered: map[int]*atomic.Bool{}}
-	e, err := conc.Start(context.Background(), r.U64(), conc.Opts{NSrc: nsrc, SlowCB: slow}, func(e *conc.Env, k int) *conc.Layer { return nil })
+	e, err := conc.Start(context.Background(), r.U64(), o, func(e *conc.Env, k int) *conc.Layer { return nil })
 	if err != nil {
 		return nil, err
 	}
@@ -196,7 +200,9 @@ func (s *c06Scn) judge(desc any) (sig string) {
 	if overflow {
 		return ""
 	}
-	want, bad := conc.Predict(dq, s.tr, cfgBySerial, s.tokenCfg, true, true, nil)
+	// with delayed verification and the suppress option, the global OnNewConfig is withheld for the events flagged so
+	// (C09 judges the flag); registered callbacks and the catch-up baseline are not affected by it
+	want, bad := conc.Predict(dq, s.tr, cfgBySerial, s.tokenCfg, true, true, func(d conc.DQ) bool { return d.Suppressed })
 	if bad != "" {
 		w.Violation(i, "announce-order", bad, desc)
 		return ""
@@ -624,13 +630,16 @@ func c06OverflowScript(w *fw.Worker, i int, r *fw.Rand) {
 }
 
 func c06Stress(w *fw.Worker, i int, r *fw.Rand) {
-	s, err := c06New(w, i, r, r.Range(2, 3), r.Intn(3))
+	// a quarter of the histories start with verification delayed and the global callbacks suppressed until it is enabled
+	delayed := r.Chance(25)
+	s, err := c06NewOpts(w, i, r, conc.Opts{NSrc: r.Range(2, 3), SlowCB: r.Intn(3), Delay: delayed, Suppress: delayed})
 	if err != nil {
 		w.Violation(i, "config-failed", err.Error(), nil)
 		return
 	}
 	e := s.e
 	defer e.Stop()
+	enableAfter := time.Duration(r.Intn(4000)) * time.Microsecond
 	e.Jitter = r.Range(10, 70)
 	ctx := e.S.Ctx
 	s.initial = e.D.View()
@@ -657,6 +666,37 @@ func c06Stress(w *fw.Worker, i int, r *fw.Rand) {
 			}
 		}(rp, rr)
 	}
+	// the tokens clients register with come from ViewVersion: config and serial of a token must belong together
+	type pair struct {
+		cfg *conc.Cfg
+		ser uint64
+	}
+	var pmu sync.Mutex
+	var pairs []pair
+	note := func(cfg *conc.Cfg, tok dials.CfgSerial[conc.Cfg]) {
+		pmu.Lock()
+		pairs = append(pairs, pair{cfg, conc.SerialOf(tok)})
+		pmu.Unlock()
+	}
+	for sp := 0; sp < 2; sp++ {
+		wg.Add(1)
+		go func() {
+			defer wg.Done()
+			last := ^uint64(0)
+			for {
+				select {
+				case <-stopRep:
+					return
+				default:
+				}
+				cfg, tok := e.D.ViewVersion()
+				if ser := conc.SerialOf(tok); ser != last {
+					last = ser
+					note(cfg, tok)
+				}
+			}
+		}()
+	}
 	var cwg sync.WaitGroup
 	for c := 0; c < nClients; c++ {
 		rr := r.Fork()
@@ -668,6 +708,7 @@ func c06Stress(w *fw.Worker, i int, r *fw.Rand) {
 				e.Report(ctx, id, rr.Intn(e.Opts.NSrc), s.validLayer(rr), true)
 			}
 			cfg, tok := e.D.ViewVersion()
+			note(cfg, tok)
 			switch rr.Intn(4) {
 			case 0:
 				cfg, tok = nil, dials.CfgSerial[conc.Cfg]{}
@@ -695,15 +736,41 @@ func c06Stress(w *fw.Worker, i int, r *fw.Rand) {
 			}
 		}(c, rr)
 	}
+	if delayed {
+		cwg.Add(1)
+		go func() {
+			defer cwg.Done()
+			time.Sleep(enableAfter)
+			e.D.EnableVerification(ctx)
+		}()
+	}
 	cwg.Wait()
 	close(stopRep)
 	wg.Wait()
+	if delayed {
+		if _, _, eerr := e.D.EnableVerification(ctx); eerr != nil {
+			w.Violation(i, "enable-verification-failed-on-valid-history", eerr.Error(), nil)
+			return
+		}
+		w.Count("stress_histories_with_delayed_verification", 1)
+	}
 	e.Report(ctx, 0, 0, s.validLayer(r), true)
 	if !s.settle() {
 		w.Inconclusive(i, "final fence failed")
 		return
 	}
-	desc := map[string]any{"mode": "stress", "clients": nClients, "reporters": nReporters, "jitter": e.Jitter}
+	desc := map[string]any{"mode": "stress", "clients": nClients, "reporters": nReporters, "jitter": e.Jitter, "delayed_verification_and_suppressed_globals": delayed}
+	bySerial := map[uint64]*conc.Cfg{0: s.initial}
+	for _, in := range e.Installs() {
+		bySerial[in.Serial] = in.Cfg
+	}
+	for _, p := range pairs {
+		if want, ok := bySerial[p.ser]; !ok || want != p.cfg {
+			w.Violation(i, "viewversion-config-and-serial-do-not-belong-together", fmt.Sprintf("ViewVersion returned config %p with serial %d; serial %d was installed with config %p", p.cfg, p.ser, p.ser, want), desc)
+			return
+		}
+	}
+	w.Count("viewversion_pairs_checked", int64(len(pairs)))
 	if sig := s.judge(desc); sig != "" {
 		w.Distinct("stress|" + sig)
 		if i%23 == 0 {
